@@ -14,6 +14,10 @@ theorem C07_all_containers_ordered :
 /-- the crate's source reads no ambient state (environment, clocks, threads, randomness, addresses, files, globals) -/
 theorem C07_no_ambient_reads : Facts.ambientReads = [] := by decide
 
+/-- the crate's source calls no API that returns a per-process-seeded hash container without naming its type
+    (itertools' `into_group_map`/`counts`/grouping maps, `hash_map::`/`hash_set::` paths, address-derived orderings) -/
+theorem C07_no_hidden_hashed_containers : Facts.hashedApiCalls = [] := by decide
+
 /-- iterating an ordered container does not depend on the process' hasher seed -/
 theorem C07_iteration_seed_independent {α : Type} (perm : Nat → List α → List α) (k : ContainerKind)
     (hk : k = .ordered) (s₁ s₂ : Nat) (xs : List α) : iterate perm k s₁ xs = iterate perm k s₂ xs := by
